@@ -31,7 +31,7 @@ ASSUMPTIONS = ['patch sets are non-overlapping; no two insertions at the same po
 REQUIRED = {'ranges_single_source': {'quick': 20000, 'thorough': 400000},
             'ranges_two_sources': {'quick': 2000, 'thorough': 40000},
             'texts_compared': {'quick': 3000, 'thorough': 60000},
-            'small_scope_ranges': {'quick': 20000, 'thorough': 20000},
+            'small_scope_ranges': {'quick': 150000, 'thorough': 3000000},
             'insitu_map_backs': {'quick': 300, 'thorough': 3000}}
 SHARD_TIMEOUT = {'quick': 240, 'thorough': 1500}
 
